@@ -49,7 +49,12 @@ Record ginv (g : gen) : Prop := {
   gi_U : forall k, (k < length (g_items g))%nat -> nth k (g_taken g) 0 <= g_i g;
   gi_L : forall k, (k < length (g_items g))%nat -> g_i g - 1 <= nth k (g_taken g) 0 * g_maxw g;
   gi_P : g_adding g = false -> forall k, (k < g_pos g)%nat ->
-         g_i g * nth k (g_weights g) 0 <= nth k (g_taken g) 0 * g_maxw g
+         g_i g * nth k (g_weights g) 0 <= nth k (g_taken g) 0 * g_maxw g;
+  (* the exact proportionality window: taken_k = ceil(i * w_k / max_w) up to the current round *)
+  gi_Ux : forall k, (k < length (g_items g))%nat ->
+          (nth k (g_taken g) 0 - 1) * g_maxw g < g_i g * nth k (g_weights g) 0;
+  gi_Lx : forall k, (k < length (g_items g))%nat ->
+          (g_i g - 1) * nth k (g_weights g) 0 <= nth k (g_taken g) 0 * g_maxw g
 }.
 
 Ltac gproj := cbn [upd g_items g_weights g_maxw g_i g_taken g_pos g_adding] in *.
@@ -81,6 +86,13 @@ Proof.
     + rewrite nth_inc_nth_neq by assumption. apply (gi_U g I); assumption.
   - intros k Hk. pose proof (gi_L g I k Hk). pose proof (nth_inc_nth_ge (g_taken g) (g_pos g) k). nia.
   - discriminate.
+  - intros k Hk. destruct (Nat.eq_dec k (g_pos g)) as [->|Hn].
+    + rewrite nth_inc_nth_eq by (rewrite (gi_lt g I); assumption).
+      replace (nth (g_pos g) (g_taken g) 0 + 1 - 1) with (nth (g_pos g) (g_taken g) 0) by lia. exact He.
+    + rewrite nth_inc_nth_neq by assumption. apply (gi_Ux g I); assumption.
+  - intros k Hk. pose proof (gi_Lx g I k Hk). pose proof (nth_inc_nth_ge (g_taken g) (g_pos g) k).
+    assert (nth k (g_taken g) 0 * g_maxw g <= nth k (inc_nth (g_taken g) (g_pos g)) 0 * g_maxw g)
+      by (apply Z.mul_le_mono_nonneg_r; lia). lia.
 Qed.
 
 (* not eligible: move on inside the pass *)
@@ -115,6 +127,9 @@ Proof.
   - intros k Hk. pose proof (gi_U g I k Hk). lia.
   - intros k Hk. pose proof (gi_P g I Ha k ltac:(lia)) as HP. pose proof (gi_w g I k Hk). nia.
   - intros _ k Hk. lia.
+  - intros k Hk. pose proof (gi_Ux g I k Hk). pose proof (gi_w g I k Hk). nia.
+  - intros k Hk. pose proof (gi_P g I Ha k ltac:(lia)) as HP.
+    replace (g_i g + 1 - 1) with (g_i g) by lia. exact HP.
 Qed.
 
 (* what one `next` does *)
@@ -334,6 +349,9 @@ Proof.
     + intros k Hk. rewrite Hzero. lia.
     + intros k Hk. rewrite Hzero. lia.
     + intros _ k Hk. lia.
+    + intros k Hk. rewrite Hzero.
+      destruct (py_max_attained w Hne) as (k0 & Hk0 & Hn0). destruct (Hp k0 ltac:(lia)) as (_ & _ & ?). lia.
+    + intros k Hk. rewrite Hzero. destruct (Hp k Hk) as (_ & _ & ?). lia.
   - intros p Hpl. destruct (Hp p Hpl) as ((H1 & H2) & H3 & H4).
     replace (nth p it O - 0)%nat with (nth p it O) in H3 by lia. split; [lia|]. rewrite H3. split; [assumption|reflexivity].
   - intros c Hcl Hcw. destruct (Hc c Hcl Hcw) as (p & Hp1 & Hp2). exists p. split; [assumption|]. lia.
@@ -374,4 +392,25 @@ Proof.
   pose proof (filter_pos_length (seq 0 (length ws)) ws) as Hl.
   destruct (filter_pos (seq 0 (length ws)) ws) as [it w]. simpl in Hl.
   destruct it; [discriminate|]. injection H as <-. exact Hl.
+Qed.
+
+Lemma zsum_nonneg_forall : forall l, Forall (fun w => 0 <= w) l -> 0 <= zsum l.
+Proof. intros l H; induction H; simpl; lia. Qed.
+
+Lemma filter_pos_sum : forall items ws, Forall (fun w => 0 <= w) ws ->
+  zsum (snd (filter_pos items ws)) <= zsum ws.
+Proof.
+  induction items as [|a r IH]; intros [|w wr] H; simpl; try lia.
+  - pose proof (zsum_nonneg_forall _ H) as H0. simpl in H0. exact H0.
+  - inversion H; subst. specialize (IH wr H3).
+    destruct (filter_pos r wr) as [x y]. simpl in *. destruct (w >? 0); simpl; lia.
+Qed.
+
+Lemma gen_init_weights_sum : forall ws g, Forall (fun w => 0 <= w) ws ->
+  gen_init (seq 0 (length ws)) ws = Some g -> zsum (g_weights g) <= zsum ws.
+Proof.
+  intros ws g Hw H. unfold gen_init in H.
+  pose proof (filter_pos_sum (seq 0 (length ws)) ws Hw) as Hs.
+  destruct (filter_pos (seq 0 (length ws)) ws) as [it w]. simpl in Hs.
+  destruct it; [discriminate|]. injection H as <-. exact Hs.
 Qed.
